@@ -77,7 +77,14 @@ class _ParseSpec(Spec):
                 out.append(self.job({"skeleton": prefix + "????", "holes": [3, 4, 5, 6], "alphabet": "emphasis"}, budget=400.0 if tier == "quick" else 900.0))
         for extra in self.extra_docs(tier):
             out.append(self.job({"skeleton": extra, "holes": []}))
+        for sk, stride in self.extra_skeletons(tier):
+            for s in docs.g2_shards([sk], replace=True):
+                if s["holes"][0] % stride == 0:
+                    out.append(self.job(s, budget=100.0))
         return out
+
+    def extra_skeletons(self, tier):
+        return []
 
     def extra_docs(self, tier):
         return []
@@ -151,3 +158,8 @@ class C05(_ParseSpec):
     rule_text = ("every positioned token of every path checked by engine/oracles/rpos.py against the symbolic source "
                  "(range, order, opener character); distinct = distinct token-name sequences")
     outside = _ParseSpec.outside + ["columns on lines that contain a TAB before the column", "positions after pragma lines (C11)"]
+
+    def extra_skeletons(self, tier):
+        # multi-line inline elements inside a setext heading (no owning paragraph: the column after the element is
+        # rebuilt from the whitespace that follows the last newline inside it), one free cell at every third position
+        return [("a [b](/u\n   \"t\nu\") `c` *d*\n===\n", 3), ("a `b\n  c` [d](/u) e\n---\n", 3)]
